@@ -7,7 +7,7 @@
    emitted (cut to c visible runes when AutoTrim a is on). *)
 From Coq Require Import List NArith ZArith Bool Arith.
 From RareV Require Import Base.Hex Base.Res Gen.GenTerm Model.Trim Model.Term.
-From RareV Require Import Proofs.TrimProof Proofs.TermEmu Proofs.TermMain Proofs.TrimStore Proofs.TermBuffered Proofs.TermCheck.
+From RareV Require Import Proofs.TrimProof Proofs.TermEmu Proofs.TermMain Proofs.TrimStore Proofs.TermBuffered Proofs.TermCheck Proofs.TermSelect.
 Import ListNotations.
 
 (* Clause 1 (screen, close).  For every history of (line, text) updates whose texts are
@@ -123,6 +123,44 @@ Theorem C20_buffered_screen : forall (tc : tcfg) (c : cfg) (ups : list (nat * te
     crow sc = line_count 0 ups /\ ccol sc = 0 /\ cvis sc = true.
 Proof. exact C20_buffered_screen_proof. Qed.
 Print Assumptions C20_buffered_screen.
+
+(* Clause 2, selection (cmd/helpers BuildVTerm, termstate.IsPipedOutput).  Whatever standard
+   output is — pipe, socket, regular file, anything that is not a character device — and with
+   or without --snapshot, the command gets the buffered writer and colour is off by default; with
+   --snapshot every output gets it; the live writer is handed out only without --snapshot to a
+   character device; a terminal without --snapshot gets the live writer; --noout / --csv - give
+   the null writer.  What then reaches a standard output that is not a character device, for
+   every history, are the final lines top to bottom (C20_buffered_same). *)
+Theorem C20_select_writer : forall (k : outkind) (snap : bool),
+  (is_char_device k = false -> select_writer k snap = WBuffered /\ color_default k = false) /\
+  select_writer k true = WBuffered /\
+  (select_writer k snap = WLive -> snap = false /\ is_char_device k = true) /\
+  select_writer OTerminal false = WLive /\
+  (forall noout csv, select_from_args noout csv snap k = if (noout || csv)%bool then WNull else select_writer k snap).
+Proof.
+  intros k snap. split; [intros H; split; [apply select_not_chardev | apply color_off_not_chardev]; exact H|].
+  split; [apply select_snapshot|]. split; [apply select_live_inv|]. split; [apply select_terminal|].
+  intros; apply select_args.
+Qed.
+Print Assumptions C20_select_writer.
+
+Theorem C20_select_output : forall (c : cfg) (k : outkind) (snap : bool) (ups : list (nat * text)),
+  is_char_device k = false ->
+  session_output c (select_writer k snap) ups =
+  Ok (flat_map (fun l => write_line_no_wrap (autotrim c) (cols c) (last_write l ups) ++ [10%N])
+               (seq 0 (line_count 0 ups))).
+Proof. exact session_not_chardev. Qed.
+Print Assumptions C20_select_output.
+
+(* Scope note, stated as a theorem: "anything but a terminal gets the buffered writer" is false of
+   the code for exactly one kind of output — a character device that is not a terminal (e.g.
+   /dev/null, where the bytes are discarded) keeps the live writer and colour.  The property's
+   clause names --snapshot and piped output; the correspondence accepts either writer there. *)
+Theorem C20_select_chardev :
+  (exists k, is_terminal k = false /\ select_writer k false = WLive) /\
+  (forall k, is_terminal k = false -> select_writer k false = WLive -> k = OCharDev).
+Proof. split; [exists OCharDev; split; reflexivity | exact select_chardev_only]. Qed.
+Print Assumptions C20_select_chardev.
 
 (* VirtualTerm (rare histo / fuzzy print through it): the store after any history *)
 Theorem C20_virtual_store : forall (size : nat) (ups : list (nat * text)),
